@@ -1,6 +1,6 @@
 /-
   C14 helper: the invariant principle of `C14_Inv` lifted to statements and blocks. Beyond
-  `storeName`/`storeGlobal`/heap writes a statement can delete a module-level name (`delName`) and
+  own-dict / heap writes a statement can delete a module-level name (`delName`, an own-dict write) and
   call `save(...)` (`doSave`); `save` can only be handed keys the statement names literally
   (`Stmt.saveKeys`). A predicate stable under all of that survives every block.
 -/
@@ -22,14 +22,20 @@ def blockSaveKeys : List Stmt → List String
 
 /-- `P` is stable under everything a statement can do under arrangement `a`, where `save` is only
     ever handed keys from `K`. -/
-structure InvS (a : Arr) (K : List String) (P : St → Prop) : Prop where
-  base : Inv a P
-  del : ∀ st x st1, delName a st x = some st1 → P st → P st1
+structure InvS (K : List String) (P : St → Prop) : Prop where
+  base : Inv P
   save : ∀ st d, (∀ k ∈ Env.keys d, k ∈ K) → P st → P (doSave st d)
 
 variable {a : Arr} {P : St → Prop}
 
-theorem Inv.iadd' (h : Inv a P) (st : St) (v w : V) (hp : P st) : P (iadd st v w).2 := by
+/-- `del x` at module level under a live arrangement removes `x` from the own dict of the running
+    code's namespace object. -/
+theorem Inv.delName' (h : Inv P) (ha : a.live) (st : St) (x : String) (st1 : St)
+    (hd : delName a st x = some st1) (hp : P st) : P st1 := by
+  rcases ha with ha | ha <;> subst ha <;> simp only [delName] at hd <;> split at hd <;>
+    first | (cases hd; exact h.own _ _ hp) | cases hd
+
+theorem Inv.iadd' (h : Inv P) (st : St) (v w : V) (hp : P st) : P (iadd st v w).2 := by
   have hhs := h.heapSet
   have hh := h.heap
   unfold PyNs.iadd
@@ -37,14 +43,14 @@ theorem Inv.iadd' (h : Inv a P) (st : St) (v w : V) (hp : P st) : P (iadd st v w
   repeat' split
   all_goals first | exact hp | exact hh _ _ hp | exact hhs _ _ _ hp
 
-theorem Inv.evalKws' (h : Inv a P) (fuel : Nat) (sc : Scope) (kws : List (String × Expr)) (st : St)
+theorem Inv.evalKws' (h : Inv P) (ha : a.live) (fuel : Nat) (sc : Scope) (kws : List (String × Expr)) (st : St)
     (hp : P st) : P (evalKws a fuel sc kws st).2 := by
   induction kws generalizing st with
   | nil => exact hp
   | cons p rest ih =>
     obtain ⟨k, e⟩ := p
     unfold PyNs.evalKws
-    have h1 := (eval_inv h fuel).1 sc e st hp
+    have h1 := (eval_inv h fuel).1 a ha sc e st hp
     split
     · rename_i heq; exact step heq h1
     · rename_i heq
@@ -53,18 +59,18 @@ theorem Inv.evalKws' (h : Inv a P) (fuel : Nat) (sc : Scope) (kws : List (String
       · rename_i heq2; exact step heq2 h2
       · rename_i heq2; exact step heq2 h2
 
-theorem Inv.runClassBody' (h : Inv a P) (fuel : Nat) (sc : Scope) (body : List (String × Expr)) (st : St)
+theorem Inv.runClassBody' (h : Inv P) (ha : a.live) (fuel : Nat) (sc : Scope) (body : List (String × Expr)) (st : St)
     (hp : P st) : P (runClassBody a fuel sc body st).2 := by
   induction body generalizing st with
   | nil => exact hp
   | cons p rest ih =>
     obtain ⟨x, e⟩ := p
     unfold PyNs.runClassBody
-    have h1 := (eval_inv h fuel).1 sc e st hp
+    have h1 := (eval_inv h fuel).1 a ha sc e st hp
     split
     · rename_i heq; exact step heq h1
     · rename_i heq
-      exact ih _ (h.store' _ _ _ _ (step heq h1))
+      exact ih _ (h.store' ha _ _ _ _ (step heq h1))
 
 /-- `save`'s dict has a key for every positional name and nothing else. -/
 theorem saveNames_keys (ns : Env) (names : List String) (d0 d : Env) (h : saveNames ns names d0 = some d) :
@@ -128,10 +134,10 @@ theorem evalKws_keys (fuel : Nat) (sc : Scope) (kws : List (String × Expr)) (st
         rw [this]
 
 /-- A statement preserves an invariant that tolerates `save` of the keys the statement names. -/
-theorem InvS.execStmt' {K : List String} (h : InvS a K P) (fuel : Nat) (sc : Scope) (s : Stmt) (st : St)
+theorem InvS.execStmt' {K : List String} (h : InvS K P) (ha : a.live) (fuel : Nat) (sc : Scope) (s : Stmt) (st : St)
     (hK : ∀ k ∈ s.saveKeys, k ∈ K) (hp : P st) : P (execStmt a fuel sc s st).2 := by
-  have hE := (eval_inv h.base fuel).1
-  have hst := h.base.store'
+  have hE := (eval_inv h.base fuel).1 a ha
+  have hst := h.base.store' ha
   cases s with
   | assign x e =>
     simp only [execStmt]
@@ -155,7 +161,7 @@ theorem InvS.execStmt' {K : List String} (h : InvS a K P) (fuel : Nat) (sc : Sco
   | del x =>
     simp only [execStmt]
     split
-    · rename_i heq; exact h.del _ _ _ heq hp
+    · rename_i heq; exact h.base.delName' ha _ _ _ heq hp
     · exact hp
   | imp x v => exact hst _ _ _ _ hp
   | def_ f ps gl body ret =>
@@ -163,7 +169,7 @@ theorem InvS.execStmt' {K : List String} (h : InvS a K P) (fuel : Nat) (sc : Sco
     exact hst _ _ _ _ (h.base.alloc _ _ hp)
   | cls c body =>
     simp only [execStmt]
-    have h1 := h.base.runClassBody' fuel { sc with kind := .cls st.heap.length } body _ (h.base.alloc st (.cls []) hp)
+    have h1 := h.base.runClassBody' ha fuel { sc with kind := .cls st.heap.length } body _ (h.base.alloc st (.cls []) hp)
     split
     · rename_i heq; exact step heq h1
     · rename_i heq; exact hst _ _ _ _ (step heq h1)
@@ -173,13 +179,23 @@ theorem InvS.execStmt' {K : List String} (h : InvS a K P) (fuel : Nat) (sc : Sco
     split
     · rename_i heq; exact step heq h1
     · rename_i heq; exact step heq h1
+  | setitem t i e =>
+    simp only [execStmt]
+    have h1 := hE sc e st hp
+    split
+    · rename_i heq; exact step heq h1
+    · rename_i w st1 heq
+      have h2 := hE sc t st1 (step heq h1)
+      split
+      · rename_i heq2; exact step heq2 h2
+      · rename_i heq2; exact h.base.doSetItem' _ _ _ _ (step heq2 h2)
   | save names kws =>
     simp only [execStmt]
     split
     · exact hp
     · split
       · exact hp
-      · have h1 := h.base.evalKws' fuel sc kws st hp
+      · have h1 := h.base.evalKws' ha fuel sc kws st hp
         split
         · rename_i heq; exact step heq h1
         · rename_i kvs st1 heq
@@ -199,13 +215,13 @@ theorem InvS.execStmt' {K : List String} (h : InvS a K P) (fuel : Nat) (sc : Sco
               exact Or.inr hk
 
 /-- A block preserves an invariant that tolerates `save` of the keys the block names. -/
-theorem InvS.execBlock' {K : List String} (h : InvS a K P) (fuel : Nat) (sc : Scope) (b : List Stmt) (st : St)
+theorem InvS.execBlock' {K : List String} (h : InvS K P) (ha : a.live) (fuel : Nat) (sc : Scope) (b : List Stmt) (st : St)
     (hK : ∀ k ∈ blockSaveKeys b, k ∈ K) (hp : P st) : P (execBlock a fuel sc b st).2 := by
   induction b generalizing st with
   | nil => exact hp
   | cons s rest ih =>
     unfold PyNs.execBlock
-    have h1 := h.execStmt' fuel sc s st (fun k hk => hK k (by simp [blockSaveKeys, hk])) hp
+    have h1 := h.execStmt' ha fuel sc s st (fun k hk => hK k (by simp [blockSaveKeys, hk])) hp
     split
     · rename_i heq; exact step heq h1
     · rename_i heq
